@@ -130,8 +130,11 @@ def build_harness(variant="asan"):
                 std, buildcfg.gcc_flags(cfg), dsrc, tmp, "-fsanitize=address,undefined" if variant == "asan" else ("-fsanitize=thread" if variant == "tsan" else ""), tmp)
             r = subprocess.run(cmd, shell=True, stdout=subprocess.PIPE, stderr=subprocess.STDOUT)
             if r.returncode != 0:
-                shutil.rmtree(tmp, ignore_errors=True)
-                raise BuildError("dumper does not compile against the current headers", r.stdout.decode(errors="replace")[:4000])
+                # the constants program names private members (masks, offsets); when one of them is renamed or removed only the
+                # regeneration of Generated.lean fails (=> a stub => broken obligations of GenChecks).  The harness itself is still
+                # built and the correspondence still runs: a failing input may well exist and must be looked for.
+                with open(os.path.join(tmp, "dumper.err"), "w") as f:
+                    f.write(r.stdout.decode(errors="replace")[:4000])
         shutil.rmtree(out, ignore_errors=True)
         os.rename(tmp, out)
         # keep the cache small: drop other entries of this variant
